@@ -68,3 +68,17 @@ def shrink(binary, case, intents, views, pred, max_runs=40):
             ev, it, vw = ev2, it2, vw2
         i -= 1
     return {"cfg": case["cfg"], "events": ev}, it
+
+
+def confirmed(binary, case, sig, check, tag="l1_confirm", tries=2):
+    """A failure seen in a parallel run is reported only if it shows again when the history runs alone (a loaded
+    machine can delay a gRPC batch beyond the plug-in's timeout; a real defect reproduces). check(obs) -> list of
+    (signature, message, event index)."""
+    for _ in range(tries):
+        try:
+            ob = run_harness(binary, "l1", [case], tag=tag, timeout=600)[0].get("obs", [])
+        except HarnessError:
+            return True
+        if not any(s2 == sig for s2, _, _ in check(ob)):
+            return False
+    return True
